@@ -259,7 +259,7 @@ fn sweep_payloads(thorough: bool) -> Vec<(String, Vec<u8>)> {
 	v
 }
 
-/// part D: the `versatiles convert` command over 4 inputs (gzip bytes labelled uncompressed + --override-input-compression, gzip, brotli, uncompressed) x --compress {absent,uncompressed,gzip,brotli} x --force-recompress x {versatiles,pmtiles,tar}, outputs decoded independently; a 21845-tile source recompressed into pmtiles. part C: chains of two conversions (the second starts from the first one's output container):
+/// part D: the `versatiles convert` command over 4 inputs (gzip bytes labelled uncompressed + --override-input-compression, gzip, brotli, uncompressed) x --compress {absent,uncompressed,gzip,brotli} x --force-recompress x {versatiles,pmtiles,tar,directory,mbtiles}, plus the gzip input as pmtiles / tar / mbtiles / directory (the command picks reader and writer by file name), outputs decoded independently; a 21845-tile source recompressed into pmtiles. part C: chains of two conversions (the second starts from the first one's output container):
 /// (source compression, target1, force1, target2, force2) through the versatiles format in memory
 fn part_c(ctx: &Arc<Ctx>) {
 	let work = ct::WorkDir::new("c04c");
@@ -479,11 +479,28 @@ fn part_d(ctx: &Arc<Ctx>) {
 		}
 		inputs.push((format!("in_{name}.versatiles"), stored, extra));
 	}
+	// the gzip input once more in every other container format (the command picks reader and writer by file name)
+	{
+		let tiles: TileMap = decoded.iter().map(|(k, p)| (*k, codec::encode_with(1, p))).collect();
+		for cont in [Cont::Pmtiles, Cont::Tar, Cont::Mbtiles, Cont::Directory] {
+			let mut src = MemSource::new("m", tiles.clone(), TileFormat::PBF, TileCompression::Gzip);
+			let name = format!("in_gz.{}", ct::ext(cont));
+			match ct::write(&rt, cont, &mut src, &work.0, "in_gz") {
+				Ok(ct::Written::Bytes(b)) => std::fs::write(work.0.join(&name), b).unwrap(),
+				Ok(ct::Written::Path(_)) => {}
+				Err(e) => {
+					eprintln!("MACHINERY: cannot write the CLI input container {name}: {e}");
+					std::process::exit(2);
+				}
+			}
+			inputs.push((name, 1, vec![]));
+		}
+	}
 	let mut runs = vec![];
 	for (ii, _) in inputs.iter().enumerate() {
 		for target in [None, Some(0u8), Some(1), Some(2)] {
 			for force in [false, true] {
-				for ext in ["versatiles", "pmtiles", "tar"] {
+				for ext in ["versatiles", "pmtiles", "tar", "dir", "mbtiles"] {
 					runs.push((ii, target, force, ext));
 				}
 			}
@@ -507,8 +524,18 @@ fn part_d(ctx: &Arc<Ctx>) {
 		let case = json!({"kind": "cli", "args": args, "input": input, "output": ext});
 		ctxr.eval();
 		ctxr.transition(1);
+		if ext == "dir" {
+			// the command writes a directory container into a directory that exists
+			let _ = std::fs::remove_dir_all(wpath.join(&out));
+			std::fs::create_dir_all(wpath.join(&out)).unwrap();
+		}
 		let r = std::process::Command::new(&bin).current_dir(&wpath).arg("convert").args(&args).arg(input).arg(&out).output();
 		let Ok(r) = r else { return ctxr.violation("the convert command cannot be started", &label, case) };
+		if !r.status.success() && ext == "mbtiles" && out_comp != 1 {
+			// MBTiles holds vector tiles gzipped only: a refusal is not applicable
+			let _ = std::fs::remove_file(wpath.join(&out));
+			return ctxr.outcome("CLI: mbtiles target refuses vector tiles that are not gzipped (not applicable)");
+		}
 		if !r.status.success() {
 			return ctxr.violation("the convert command fails", &format!("{label}: {}", String::from_utf8_lossy(&r.stderr).lines().last().unwrap_or("")), case);
 		}
@@ -517,6 +544,8 @@ fn part_d(ctx: &Arc<Ctx>) {
 		let (cont, w) = match ext {
 			"versatiles" => (Cont::Versatiles, ct::Written::Bytes(std::fs::read(&path).unwrap_or_default())),
 			"pmtiles" => (Cont::Pmtiles, ct::Written::Bytes(std::fs::read(&path).unwrap_or_default())),
+			"dir" => (Cont::Directory, ct::Written::Path(path.clone())),
+			"mbtiles" => (Cont::Mbtiles, ct::Written::Path(path.clone())),
 			_ => (Cont::Tar, ct::Written::Path(path.clone())),
 		};
 		match ct::independent_decode(cont, &w) {
@@ -540,6 +569,7 @@ fn part_d(ctx: &Arc<Ctx>) {
 			}
 		}
 		let _ = std::fs::remove_file(&path);
+		let _ = std::fs::remove_dir_all(&path);
 		ctxr.nontrivial(fnv_str(&format!("cli{ri}")));
 	});
 	ctx.outcome_n("CLI conversions (input x --compress x --force-recompress x target format)", runs.len() as u64);
@@ -593,7 +623,7 @@ fn part_d(ctx: &Arc<Ctx>) {
 pub fn run(ctx: Arc<Ctx>) {
 	ctx.rule(
 		"part A: every (source compression, target in {keep,none,gzip,brotli}, force flag, target container) x tile format {pbf, png, webp, bin} (MBTiles: png and pbf, only its legal pairs are judged as successes) over 8 payloads (three near-duplicates of one length that agree in head and tail, 1 B, 2 KiB compressible, 70 KiB incompressible, 100 KiB and 300 KiB highly compressible) through TilesConvertReader + the real writer on a multi-thread runtime, file-based targets into a path that already holds an earlier export with payloads of the same lengths; \
-		 output tiles decoded independently with the compression the output declares. part B: compress/decompress/recompress over 3x3 pairs and optimize_compression over 3 inputs x 8 allowed sets x 3 goals x (5 named payloads + every length 0..=40 quick / 0..=1200 thorough and 2^k-1,2^k,2^k+1 for k=9..16 quick / 9..22 thorough, each as text and as noise). part D: the `versatiles convert` command over 4 inputs (gzip bytes labelled uncompressed + --override-input-compression, gzip, brotli, uncompressed) x --compress {absent,uncompressed,gzip,brotli} x --force-recompress x {versatiles,pmtiles,tar}, outputs decoded independently; a 21845-tile source recompressed into pmtiles. part C: chains of two conversions (source compression x target1 x force1 x target2 x force2 x {versatiles, pmtiles}; every 4th in quick, all 384 in thorough), the second reading the first one's output. non-trivial = configurations that actually re-encode",
+		 output tiles decoded independently with the compression the output declares. part B: compress/decompress/recompress over 3x3 pairs and optimize_compression over 3 inputs x 8 allowed sets x 3 goals x (5 named payloads + every length 0..=40 quick / 0..=1200 thorough and 2^k-1,2^k,2^k+1 for k=9..16 quick / 9..22 thorough, each as text and as noise). part D: the `versatiles convert` command over 4 inputs (gzip bytes labelled uncompressed + --override-input-compression, gzip, brotli, uncompressed) x --compress {absent,uncompressed,gzip,brotli} x --force-recompress x {versatiles,pmtiles,tar,directory,mbtiles}, plus the gzip input as pmtiles / tar / mbtiles / directory (the command picks reader and writer by file name), outputs decoded independently; a 21845-tile source recompressed into pmtiles. part C: chains of two conversions (source compression x target1 x force1 x target2 x force2 x {versatiles, pmtiles}; every 4th in quick, all 384 in thorough), the second reading the first one's output. non-trivial = configurations that actually re-encode",
 	);
 	ctx.assume("flate2 and brotli crates are the trusted base used to build the source tiles and to decode the outputs");
 	part_a(&ctx);
